@@ -9,7 +9,7 @@ TRUSTED_BASE = [
 
 PROPS = {
     "C17": {
-        "modules": ["C17", "Audit1"],
+        "modules": ["C17", "C17w", "Audit1"],
         "families_exhaustive": ["osub_all"],
         "families": ["osub", "unwrap", "accu"],
         "n_quick": 60000, "n_thorough": 600000,
@@ -18,11 +18,12 @@ PROPS = {
             "Unwrapper: returned value is the wrapped increment; accumulator = old + increment; reduces to the new sample (unwrapper_step, unwrapper_tracks_last)",
             "Unwrapper: wide output = old + running sum of increments modulo 2^bits(Q) for every sequence (unwrapper_sum), exactly while every prefix sum fits Q (unwrapper_sum_exact); widths 0 < bits(P) <= bits(Q), signed types",
             "Accu: n-th item = start + n*step mod 2^bits, iterator total (accu_nth)",
+            "extension (Props/C17w.lean): Unwrapper::wraps = y / 2^S rounded to nearest (ties up), reduced to P (wraps_core, unwrapper_wraps_round); y = wraps*2^S + phase exactly, phase the signed S-bit residue (unwrapper_wraps_phase, unwrapper_wraps_phase_getters, unwrapper_phase_in); Accu has period 2^bits (accu_periodic)",
             "after the claims audit (Props/Audit1.lean): if the TRUE unwrapped phase (old + sum of increments as unbounded integers) stays within Q's range over the run, the wide output equals it exactly after every prefix (aud_unwrapper_exact_run; the hypothesis is about the true phase only, not about the wrapped accumulator)",
         ],
         "clauses_explored": [],
         "level_text": "Every clause of the property is a kernel-checked theorem about the model, for all widths, pairs, sample sequences and (start, step, n); the model is tied to the crate by correspondence on 3.6e5 op lines per run and by a native oracle that is exhaustive for i8 (and i16 in the thorough tier).",
-        "level_note": "Model: overflowingSub, unwrapperUpdate, accuNext (IdspModel/Model/Unwrap.lean). Not modelled: Unwrapper::wraps (no primitive type satisfies its trait bounds), serde derives.",
+        "level_note": "Model: overflowingSub, unwrapperUpdate, accuNext (IdspModel/Model/Unwrap.lean). Unwrapper::wraps (unwrapperWraps) is tied through a phase-word newtype (harness/src/pword.rs: P32 wraps i32 and implements the BitAnd<u32> + Signed + WrappingAdd bounds no primitive satisfies) with S in {1,2,16,31,32} on rounding-boundary states; Unwrapper::phase = unwrapperPhase. Not modelled: serde derives.",
         "rule": "osub: all i8 pairs (and all i16 pairs in thorough), lattice/random i32/i64; Unwrapper: random walks with forced wraps, each sequence distinct; Accu: (start, step, n) triples",
     },
 }
